@@ -32,12 +32,14 @@ type Cfg struct {
 	Lc    bool   `json:"lc"`
 	Ext   string `json:"ext"`
 	Plain bool   `json:"plain"`
-	Cust  int    `json:"cust,omitempty"` // > 0: a custom schema (NewCustomSchema) whose field constraints differ from the struct tags, see custom()
+	AOff  bool   `json:"asyncoff,omitempty"` // synchronous, but the schema carries asynchronous-write settings that are switched off (Enable false)
+	Cust  int    `json:"cust,omitempty"`     // > 0: a custom schema (NewCustomSchema) whose field constraints differ from the struct tags, see custom()
 }
 
 // custom: the constraints a custom schema puts on top of the struct tags ("any subset of fields indexed / unique").
 //
 //	1: A unique   2: U not indexed   3: V indexed   4: F unique, E not indexed   5: V unique, Z not indexed
+//	7: R (an optional string, *string) UPPER: the only way to put a case constraint on a pointer field
 //	6: Z unique and LOWER (a normalisation the struct tag does not have: the trace header then carries the
 //	   canonicalisation table of Z, see header())
 func custom(k int) map[string]sod.Constraints {
@@ -54,6 +56,8 @@ func custom(k int) map[string]sod.Constraints {
 		return map[string]sod.Constraints{"V": {Index: true, Unique: true}, "Z": {}}
 	case 6:
 		return map[string]sod.Constraints{"Z": {Index: true, Unique: true, Lower: true}}
+	case 7:
+		return map[string]sod.Constraints{"R": {Upper: true}}
 	}
 	return nil
 }
@@ -120,6 +124,7 @@ type Test struct {
 	Adopt    string   `json:"adopt,omitempty"`     // continue on a copy of a golden directory (written by the pinned release)
 	CrashAll bool     `json:"crash_all,omitempty"` // enumerate the crash points of every mutating call
 	Aux      bool     `json:"aux,omitempty"`       // a second collection lives in the same database (aux.go)
+	OwnIDs   bool     `json:"ownids,omitempty"`    // new objects of even slots get an identifier chosen by the caller (upper-case hex) before they are stored
 }
 
 // ---------------------------------------------------------------- error classes
@@ -220,6 +225,7 @@ type Runner struct {
 	opi    int
 	recs   []Vals
 	recIdx map[string]int
+	own    map[int]string // identifiers chosen by the caller (OwnIDs)
 	// second collection
 	xslots map[int]string
 	xrev   map[string]int
@@ -239,6 +245,18 @@ func (r *Runner) emit(e ev) {
 	}
 }
 
+// extOf: the extension of object files: the configured one, ".json" when the test says nothing, none at all for "-"
+// (an empty extension is a legal setting: files are then named <uuid>)
+func extOf(c Cfg) string {
+	switch c.Ext {
+	case "":
+		return ".json"
+	case "-":
+		return ""
+	}
+	return c.Ext
+}
+
 func (r *Runner) schema() sod.Schema { return schemaFor(r.cfg) }
 
 func schemaFor(cfg Cfg) sod.Schema {
@@ -253,10 +271,7 @@ func schemaFor(cfg Cfg) sod.Schema {
 		}
 		s = sod.NewCustomSchema(fds, "")
 	}
-	s.Extension = r.cfg.Ext
-	if s.Extension == "" {
-		s.Extension = ".json"
-	}
+	s.Extension = extOf(cfg)
 	s.Compress = r.cfg.Gz
 	s.Cache = r.cfg.Cache
 	if r.cfg.Async {
@@ -265,6 +280,9 @@ func schemaFor(cfg Cfg) sod.Schema {
 			tmo = 300
 		}
 		s.Asynchrone(r.cfg.Thr, time.Duration(tmo)*time.Millisecond)
+	} else if r.cfg.AOff {
+		// settings present but disabled: exactly the same collection as without settings
+		s.AsyncWrites = &sod.Async{Enable: false, Threshold: 2, Timeout: 200 * time.Millisecond}
 	}
 	return s
 }
@@ -301,6 +319,7 @@ func (r *Runner) complete(slot int, in Vals) Vals {
 	v["U"] = 0
 	v["F"] = zeroCode("F")
 	v["N"] = zeroCode("N")
+	v["R"] = zeroCode("R")
 	v["T"] = 3
 	v["E"] = zeroCode("E")
 	v["PX"] = zeroCode("PX")
@@ -332,6 +351,15 @@ func (r *Runner) object(slot int, in Vals) (sod.Object, Vals) {
 	rec := buildRec(v, v["pl"])
 	if u, ok := r.slots[slot]; ok {
 		rec.Initialize(u)
+	} else if r.t.OwnIDs && slot%2 == 0 {
+		// an identifier chosen by the caller is legal; upper-case hex is a legal spelling of a UUID
+		if r.own == nil {
+			r.own = map[int]string{}
+		}
+		if r.own[slot] == "" {
+			r.own[slot] = strings.ToUpper(uuid.NewString())
+		}
+		rec.Initialize(r.own[slot])
 	}
 	// logged input: pl is logged as the payload id of the built object
 	lv := Vals{}
@@ -967,7 +995,7 @@ func probeValue(f string, code int, ptype string) interface{} {
 		v = uniU[code]
 	case "F":
 		v = uniF[code]
-	case "N", "PY":
+	case "N", "PY", "R":
 		v = caseUpper.value(code)
 	case "S", "W":
 		v = caseLower.value(code)
